@@ -58,9 +58,9 @@ def candidates(tier, seed):
     vals = [(str(v), True, v) for v in BOUNDARY]
     for t, num in TEXTS:
         vals.append((t, num, int(t) if num else 0))
-    nrand = 150 if tier == "thorough" else 10
+    nrand = 300 if tier == "thorough" else 10
     rnd = [rng.randrange(-2 ** 31, 2 ** 31) for _ in range(nrand)]
-    rnd += [rng.randrange(238609294, 256 * 10 ** 6) for _ in range(3 if tier == "quick" else 20)]   # above the overflow point, cheap
+    rnd += [rng.randrange(238609294, 256 * 10 ** 6) for _ in range(3 if tier == "quick" else 30)]   # above the overflow point, cheap
     out = []
 
     def add(key, val, numeric, v, mode, absent=False):
@@ -96,12 +96,12 @@ def run(c, a):
     design = [("so_cur_safe.cfg", "hold"), ("so_cur_wedge.cfg", "violated"), ("so_fix.cfg", "hold"), ("so_fix3.cfg", "hold")]
     if thorough:
         design += [("so_cur3_safe.cfg", "hold"), ("so_cur3_wedge.cfg", "violated"), ("so_fix_live.cfg", "hold"),
-                   ("so_fix3_live.cfg", "hold")]
+                   ("so_fix3_live.cfg", "hold"), ("so_fix_w8.cfg", "hold"), ("so_cur_w8_safe.cfg", "hold")]
     dres = {}
 
     def drun(cfg):
         try:
-            dres[cfg] = c.tlc("StreamObs", "StreamObs", cfg, workers=4, timeout=1500 if thorough else 300,
+            dres[cfg] = c.tlc("StreamObs", "StreamObs", cfg, workers=8 if "w8" in cfg else 4, heap="8g" if "w8" in cfg else None, timeout=1500 if thorough else 300,
                               name="design-" + cfg[:-4])
         except Exception as ex:     # noqa
             dres[cfg] = ex
@@ -145,8 +145,8 @@ def run(c, a):
         big = [x for x in cases if x["big"]]
         nsh = max(1, min(NCPU // 2, len(small) // 12))
         parts = [small[i::nsh] for i in range(nsh)]
-        if big:
-            parts.append(big)
+        for b in range(0, len(big), 16):
+            parts.append(big[b:b + 16])
         files = []
         for i, part in enumerate(parts):
             p = os.path.join(c.scratch, "so-%s-in-%d.ndjson" % (tag, i))
